@@ -765,6 +765,7 @@ func (c *Ctx) cod7(encs []*encoder) {
 			c.S.Bad("COD-7", key, c.P.Pos(valid.Pos()), "(*Config).valid", fmt.Sprintf("valid() demands a proper will topic under %v, but newCONNREQ emits the Will under %v: a Config can pass validation and still produce a CONNECT with an empty will topic", vc, ec), nil)
 		}
 	}
+	c.cod7Flags()
 	n := 0
 	for _, e := range encs {
 		if e.fn == nil {
